@@ -101,7 +101,7 @@ type c12Spec struct {
 	Post  []int        `json:"post,omitempty"`
 	Fault int          `json:"fault"`
 	CRLF  bool         `json:"crlf,omitempty"`
-	DashF bool         `json:"dash_f,omitempty"`  // the program is read from a file
+	DashF bool         `json:"dash_f,omitempty"`   // the program is read from a file
 	Hash  bool         `json:"hashbang,omitempty"` // its first line is a #! comment
 	Prog  fw.Text      `json:"program,omitempty"`
 	Files []drive.File `json:"files,omitempty"`
@@ -303,7 +303,9 @@ func init() {
 					for si := range c11Slots() {
 						pc := c11FaultProg(fi, si)
 						sp := pc.spec()
-						c.Do(func() any { return c12Spec{Form: "general", Prog: fw.Text(sp.Program), Files: sp.Files, Sels: sp.Selectors} }, func() *fw.Violation { return c12General(c, sp) })
+						c.Do(func() any {
+							return c12Spec{Form: "general", Prog: fw.Text(sp.Program), Files: sp.Files, Sels: sp.Selectors}
+						}, func() *fw.Violation { return c12General(c, sp) })
 					}
 				}
 				// faults whose position is a newline byte or the end of the text: every prefix of a seed cut at a line end (an
@@ -317,7 +319,9 @@ func init() {
 						for _, tail := range []string{"", "\n", " \n", "  # c\n", "\r\n", "\n\n", "\nx = \"", "\nx = 'abc\n", "\n  y = /re\n"} {
 							sp := pc.spec()
 							sp.Program = src[:i] + tail
-							c.Do(func() any { return c12Spec{Form: "general", Prog: fw.Text(sp.Program), Files: sp.Files, Sels: sp.Selectors} }, func() *fw.Violation { return c12General(c, sp) })
+							c.Do(func() any {
+								return c12Spec{Form: "general", Prog: fw.Text(sp.Program), Files: sp.Files, Sels: sp.Selectors}
+							}, func() *fw.Violation { return c12General(c, sp) })
 						}
 					}
 				}
@@ -342,7 +346,9 @@ func init() {
 							sp := pc.spec()
 							sp.Program = c11SpliceText(toks, g, ins, false)
 							_ = seed
-							c.Do(func() any { return c12Spec{Form: "general", Prog: fw.Text(sp.Program), Files: sp.Files, Sels: sp.Selectors} }, func() *fw.Violation { return c12General(c, sp) })
+							c.Do(func() any {
+								return c12Spec{Form: "general", Prog: fw.Text(sp.Program), Files: sp.Files, Sels: sp.Selectors}
+							}, func() *fw.Violation { return c12General(c, sp) })
 						}
 					}
 				}
